@@ -79,6 +79,18 @@ fn type_directed_args(t: &mut Tape, params: &BTreeMap<String, Type>, known: &Arg
         };
         out.insert(k.clone(), v);
     }
+    // an argument map may carry keys the template does not declare (callers pass one map to many
+    // templates): they mean nothing to the template, whatever they are called - including the names
+    // of things other stages bind
+    if t.draw(6) == 5 {
+        let n = 1 + t.index(2);
+        for _ in 0..n {
+            let k = *t.pick(&["tip_slot", "fees", "min_utxo", "slot_to_time", "time_to_slot", "network", "now", "collateral", "validity", "extra_0"]);
+            if !params.contains_key(k) {
+                out.insert(k.to_string(), ArgValue::Int(*t.pick(&[4242i128, 0, 1, 170_000])));
+            }
+        }
+    }
     out
 }
 
